@@ -280,6 +280,18 @@ def main():
             continue
         bounded_violations.append({'message': 'bounded native run found a failing input', 'obligation': 'bounded.' + fl['name'], 'obligation_text': fl['failing_input'],
                                    'declared_in': None, 'site': 'public API (replay/twin.rs)', 'line': 0, 'rendered': fl['failing_input']})
+    # 5b. thorough tier: Kani harnesses (bounded) for the hoot functions that stay outside Verus
+    kani = None
+    if tier == 'thorough':
+        import kani_check
+        if any(prop in v['props'] for v in kani_check.HARNESSES.values()):
+            try:
+                kani = kani_check.run_kani(a.repo, [prop])
+            except Exception as e:
+                kani = {'ran': [], 'fails': [], 'built': False, 'error': repr(e)}
+            for fl in kani['fails']:
+                bounded_violations.append({'message': 'Kani bounded harness failed', 'obligation': 'bounded.kani.' + fl['harness'], 'obligation_text': '; '.join(fl.get('failed_checks', [])),
+                                           'declared_in': None, 'site': fl['function'] + ' (kani/verif_kani.rs)', 'line': 0, 'rendered': json.dumps(fl)})
     replay_path = None
     found_input = None
     if violations or bounded_violations:
@@ -360,7 +372,8 @@ def main():
             'bounded_stand_ins': {'labelled': 'BOUNDED - never counted in obligations/discharged',
                                   'what_they_stand_in_for': cfg.get('bounded', []),
                                   'runs': [{'twin': t['name'], 'evaluations': t['evaluations'], 'ms': t['ms'], 'exhaustive_over_stated_menu': True} for t in tw['twins']],
-                                  'harness_built': tw['built'], 'cmd': tw.get('cmd'), 'wall_s': tw.get('wall_s')},
+                                  'harness_built': tw['built'], 'cmd': tw.get('cmd'), 'wall_s': tw.get('wall_s'),
+                                  'kani': kani},
             'thorough_runs': extra_notes,
             'vacuity': vac,
             'explanation': cfg['explanation'],
